@@ -462,6 +462,8 @@ impl IncrementalEngine {
         let max_time = self.max_write_time.load(Ordering::SeqCst);
         let target = max_time + 1;
         self.advance_time(target)?;
+        #[cfg(inputlayer_verif)]
+        crate::verif_hooks::sched_point("inc:rrc:between_advance_and_wait");
         self.wait_until_caught_up(target)?;
         self.read_relation(relation)
     }
